@@ -142,7 +142,9 @@ type hist struct {
 	shadow    map[string]*srec
 	users     []string
 	noSpec    bool // the directory was not built through the store API: no sequential specification
-	tmpBroken bool // the work area is currently a regular file: every write must fail and change nothing
+	tmpBroken bool // the work area is currently unusable: every write must fail and change nothing
+	tmpSeq    int
+	shm       string // directory on another file system the work area currently links to
 }
 
 // breakTmp / mendTmp: the work area .tmp is replaced by a regular file (and restored): temporary
@@ -150,12 +152,39 @@ type hist struct {
 func (h *hist) toggleTmp() {
 	p := filepath.Join(h.base, ".tmp")
 	os.RemoveAll(p)
+	if h.shm != "" {
+		os.RemoveAll(h.shm)
+		h.shm = ""
+	}
 	if h.tmpBroken {
 		os.Mkdir(p, 0700)
 	} else {
-		os.WriteFile(p, []byte("x"), 0600)
+		h.tmpSeq++
+		if h.tmpSeq%2 == 0 {
+			// the work area on another file system: temporary files can be created and written, the
+			// rename into the base directory fails (EXDEV) — the failure comes AFTER the data was written
+			h.shm = tmpOnOtherFs(h.base, h.c.work, 5000+h.tmpSeq)
+		}
+		if h.shm == "" {
+			os.WriteFile(p, []byte("x"), 0600)
+		}
 	}
 	h.tmpBroken = !h.tmpBroken
+}
+
+// forModel: while the work area is unusable the model is shown `.tmp` as a regular file (its way
+// of saying "temporary files cannot be moved into place"), whatever the real reason is.
+func (h *hist) forModel(s []sent) []sent {
+	if !h.tmpBroken {
+		return s
+	}
+	out := append([]sent(nil), s...)
+	for i := range out {
+		if out[i].name == ".tmp" {
+			out[i] = sent{name: ".tmp", data: []byte("x")}
+		}
+	}
+	return out
 }
 
 func (h *hist) pre() []sent { return snapshot(h.base) }
@@ -264,11 +293,11 @@ func (h *hist) write(op string, user string, pw []byte, admin bool) {
 	}
 	switch op {
 	case "add":
-		c.emit(fmt.Sprintf("st.add %s %s %s %s %s %s %d %s", h.cfg.tokenOf(h.d), snapTok(pre, false), o.token(), xs(user), xb(pw), tf(admin), ts, xb(salt)), res+" "+snapTok(post, true))
+		c.emit(fmt.Sprintf("st.add %s %s %s %s %s %s %d %s", h.cfg.tokenOf(h.d), snapTok(h.forModel(pre), false), o.token(), xs(user), xb(pw), tf(admin), ts, xb(salt)), res+" "+snapTok(h.forModel(post), true))
 	case "init":
-		c.emit(fmt.Sprintf("st.init %s %s %s %s %s %d %s", h.cfg.tokenOf(h.d), snapTok(pre, false), o.token(), xs(user), xb(pw), ts, xb(salt)), res+" "+snapTok(post, true))
+		c.emit(fmt.Sprintf("st.init %s %s %s %s %s %d %s", h.cfg.tokenOf(h.d), snapTok(h.forModel(pre), false), o.token(), xs(user), xb(pw), ts, xb(salt)), res+" "+snapTok(h.forModel(post), true))
 	case "update":
-		c.emit(fmt.Sprintf("st.update %s %s %s %s %s %d %s", h.cfg.tokenOf(h.d), snapTok(pre, false), o.token(), xs(user), xb(pw), ts, xb(salt)), res+" "+snapTok(post, true))
+		c.emit(fmt.Sprintf("st.update %s %s %s %s %s %d %s", h.cfg.tokenOf(h.d), snapTok(h.forModel(pre), false), o.token(), xs(user), xb(pw), ts, xb(salt)), res+" "+snapTok(h.forModel(post), true))
 	}
 	id := fmt.Sprintf("%s %s %s", op, xs(user), snapTok(pre, true))
 	if len(id) > 3000 {
@@ -619,6 +648,9 @@ func suiteC01(c *ctx) {
 			}
 		}
 		h.readers()
+		if h.shm != "" {
+			os.RemoveAll(h.shm)
+		}
 		os.RemoveAll(h.base)
 	}
 }
